@@ -36,6 +36,8 @@ function observe(tag) {
 	obs(tag ".NR", NR); obs(tag ".FNR", FNR); obs(tag ".FILENAME", FILENAME)
 	obs(tag ".RSTART", RSTART); obs(tag ".RLENGTH", RLENGTH)
 	obs(tag ".INPUTMODE", INPUTMODE); obs(tag ".OUTPUTMODE", OUTPUTMODE)
+	# CSV/TSV input mode: an assigned $0 is parsed again, with this run's separator and comment character
+	if (INPUTMODE != "") { osave = $0; $0 = "#tag,y z\tw"; obs(tag ".reparse", NF ":" $1); $0 = osave }
 }
 function observevars(tag,   k, n) {
 	obs(tag ".g1", g1); obs(tag ".g2", g2); obs(tag ".x", x); obs(tag ".line", line); obs(tag ".recs", recs)
